@@ -678,10 +678,11 @@ Proof.
     destruct (dense_array d) as [xs|] eqn:Ed; [|apply rP_err].
     pose proof (dense_array_canon d xs Hd Ed) as Hxs.
     match goal with |- rP _ (if ?c then _ else _) => destruct c end; [apply rP_err|].
+    try (match goal with |- context [existsb ?f ?l] => generalize (existsb f l); intros hb end).
     match goal with |- rP _ (?F ?a ?b ?c) =>
       assert (HH : forall b' c', Forall Canon b' -> EWF c' -> rP EWF (F a b' c')); [| apply HH; [exact Hxs | constructor]] end.
     induction items as [|it items IH]; intros ys acc Hys Hacc.
-    + destruct ys; [apply rP_ok, Hacc | apply rP_err].
+    + destruct ys; [apply rP_ok, Hacc | destruct hb; [apply rP_unspec | apply rP_err]].
     + destruct it as [q fb|o].
       * destruct ys as [|y ys].
         -- destruct fb as [dflt|]; [|apply rP_err].
@@ -699,13 +700,14 @@ Proof.
     eapply rP_bind; [apply as_data_wf, Hv|]. intros d Hd.
     destruct d as [|tv|]; try apply rP_err.
     match goal with |- rP _ (if ?c then _ else _) => destruct c end; [apply rP_err|].
+    try (match goal with |- context [existsb ?f ?l] => generalize (existsb f l); intros hb end).
     match goal with |- rP _ (?F ?a ?b ?c ?d) =>
       assert (HH : forall b' c' d', Canon (VTup b') -> EWF d' -> rP EWF (F a b' c' d')); [| apply HH; [exact Hd | constructor]] end.
     induction attrs as [|[n it] attrs IH]; intros remaining extra acc Hrem Hacc.
     + destruct extra as [[x|]|].
       * apply bind_item_wf; [exact Hrho | exact Hacc | apply VWF_D, Hrem].
       * apply rP_ok, Hacc.
-      * destruct remaining; [apply rP_ok, Hacc | apply rP_err].
+      * destruct remaining; [apply rP_ok, Hacc | destruct hb; [apply rP_unspec | apply rP_err]].
     + destruct it as [q fb|o]; [|apply IH; assumption].
       destruct (tget n tv) as [x|] eqn:Eg.
       * eapply rP_bind; [apply bind_item_wf; [exact Hrho | exact Hacc | apply VWF_D; eapply tget_canon; [exact Hd | exact Eg]]|].
@@ -719,6 +721,7 @@ Proof.
     destruct (dict_entries l) as [es|] eqn:Ee; [|apply rP_err].
     pose proof (dict_entries_canon l es Ee (set_members_canon _ Hd)) as Hes.
     match goal with |- rP _ (if ?c then _ else _) => destruct c end; [apply rP_err|].
+    try (match goal with |- context [existsb ?f ?l] => generalize (existsb f l); intros hb end).
     match goal with |- rP _ (?F ?a ?b ?c ?d) =>
       assert (HH : forall b' c' d', Forall (fun p : val * val => Canon (fst p) /\ Canon (snd p)) b' -> EWF d' -> rP EWF (F a b' c' d'));
         [| apply HH; [exact Hes | constructor]] end.
@@ -727,7 +730,7 @@ Proof.
       * apply bind_item_wf; [exact Hrho | exact Hacc |]. apply VWF_D, mkset_canon, Forall_forall.
         intros m Hm. apply in_map_iff in Hm as (q & <- & Hq). rewrite Forall_forall in Hrem. destruct (Hrem q Hq). apply ventry_canon; assumption.
       * apply rP_ok, Hacc.
-      * destruct remaining; [apply rP_ok, Hacc | apply rP_err].
+      * destruct remaining; [apply rP_ok, Hacc | destruct hb; [apply rP_unspec | apply rP_err]].
     + destruct it as [q fb|o]; [|apply IH; assumption].
       eapply rP_bind; [apply Hev, Hrho|]. intros kw Hkw. eapply rP_bind; [apply as_data_wf, Hkw|]. intros k Hk.
       destruct (filter (fun p : val * val => veqb k (fst p)) remaining) as [|[k1 x] [|? ?]] eqn:Ef.
